@@ -1,3 +1,78 @@
+/-
+C17 — non-vacuity examples and concrete witnesses of the documented library quirks (each evaluated on
+the model by the kernel).
+-/
 import DmlcModel.Props.C17
+
 namespace DmlcModel.Props.C17
+open DmlcModel DmlcModel.Param
+
+/-- a float conversion stub for the examples (the theorems are generic in it): accepts only "1" -/
+def opsW : FloatOps :=
+  { conv32 := fun t => if t = [49] then .ok 1065353216 1 else .invalid,
+    conv64 := fun t => if t = [49] then .ok 4607182418800017408 1 else .invalid,
+    print32 := fun _ => [49], print64 := fun _ => [49] }
+
+/-- `i` int, default 3, range [-5,100], alias `ii`;  `s` string, required;  `o` optional<int>, default None;
+    `e` enum {a=1, b=2}, default 1;  `u` unsigned, default 7 -/
+def SW : Schema :=
+  [ { name := [105], aliases := [[105, 105]], ty := .int, dflt := some (.int 3), lo := some (.int (-5)), hi := some (.int 100), enums := [] },
+    { name := [115], aliases := [], ty := .string, dflt := none, lo := none, hi := none, enums := [] },
+    { name := [111], aliases := [], ty := .optInt, dflt := some (.oint none), lo := none, hi := none, enums := [] },
+    { name := [101], aliases := [], ty := .enumInt, dflt := some (.int 1), lo := none, hi := none, enums := [([97], 1), ([98], 2)] },
+    { name := [117], aliases := [], ty := .uint, dflt := some (.int 7), lo := none, hi := none, enums := [] } ]
+
+example : (allKeys SW).Nodup := by decide
+example : ∀ f ∈ SW, EnumsInRange f := by
+  intro f hf e he
+  simp only [SW, List.mem_cons, List.mem_nil_iff, or_false] at hf
+  rcases hf with rfl | rfl | rfl | rfl | rfl <;> simp at he
+  rcases he with rfl | rfl <;> simp [inKind]
+
+/-- the hypotheses of `C17_init_ok` are satisfiable: i=5, ii=7 (alias, later: wins), s=x -/
+example : (runInit opsW SW Gen.Param.kAllowHidden false (zeroStruct SW)
+    [([105], [53]), ([115], [120]), ([105, 105], [55])]).err = none := by decide
+example : (runInit opsW SW Gen.Param.kAllowHidden false (zeroStruct SW)
+    [([105], [53]), ([115], [120]), ([105, 105], [55])]).st 0 = .int 7 := by decide
+example : (runInit opsW SW Gen.Param.kAllowHidden false (zeroStruct SW)
+    [([105], [53]), ([115], [120]), ([105, 105], [55])]).st 4 = .int 7 := by decide
+/-- required field missing -/
+example : (runInit opsW SW Gen.Param.kAllowHidden false (zeroStruct SW) [([105], [53])]).err = some .required := by decide
+/-- out of range: 101 > 100 -/
+example : (runInit opsW SW Gen.Param.kAllowHidden false (zeroStruct SW) [([115], []), ([105], [49, 48, 49])]).err = some .range := by
+  decide
+/-- quirks kept by the model because the library has them -/
+-- trailing blank accepted by the generic path
+example : (setInt .i32 (.int 0) [53, 32]).2 = none := by decide
+-- "-1" accepted for unsigned and wraps
+example : setInt .u32 (.int 0) [45, 49] = (.int 4294967295, none) := by decide
+-- "5L" accepted for optional<int>, "5LL", " None", "Nonex" rejected
+example : setOptInt [53, 76] = (.oint (some 5), none) := by decide
+example : (setOptInt [53, 76, 76]).2 = some .format := by decide
+example : (setOptInt [32, 78, 111, 110, 101]).2 = some .format := by decide
+example : (setOptInt [78, 111, 110, 101, 120]).2 = some .format := by decide
+-- an enum field rejects its numeric value
+example : (runInit opsW SW Gen.Param.kAllowHidden false (zeroStruct SW) [([115], []), ([101], [49])]).err = some .enum := by decide
+-- `____` is not hidden, `__x__` is
+example : hiddenSkip Gen.Param.kAllowHidden [95, 95, 95, 95] = false := by decide
+example : hiddenSkip Gen.Param.kAllowHidden [95, 95, 120, 95, 95] = true := by decide
+example : hiddenSkip Gen.Param.kAllMatch [95, 95, 120, 95, 95] = false := by decide
+-- nan passes a two-sided range check (both comparisons false)
+example : check { name := [], aliases := [], ty := .float, dflt := none, lo := some (.flt 3212836864), hi := some (.flt 1065353216), enums := [] }
+    (.flt 2143289344) = none := by decide
+-- a failing argument leaves the earlier ones applied (no rollback)
+example : (runUpdate opsW SW Gen.Param.kAllMatch false (zeroStruct SW) [] [] [([105], [57]), ([122], [49])]).st 0 = .int 9 := by
+  decide
+-- the dictionary has one entry per name and alias
+example : (entryMap SW).map (·.1) = [[101], [105], [105, 105], [111], [115], [117]] := by decide
+
+-- hypotheses of the dictionary / JSON theorems are satisfiable: the dictionary of an initialised struct exists,
+-- and the map reader returns what the map writer was given (also with characters that need escaping)
+example : (match dict opsW SW (runInit opsW SW Gen.Param.kAllowHidden false (zeroStruct SW) [([115], [120])]).st with
+    | .ok kvs => kvs.length | .error _ => 0) = 6 := by decide
+example : jsonReadMap (jsonWriteMap [([105], [53]), ([115], [120, 34, 92, 10])]) = some [([105], [53]), ([115], [120, 34, 92, 10])] := by
+  decide
+example : jsonReadMap (jsonWriteMap [([105], [])]) = some [([105], [])] := by decide
+example : jsonReadMap (jsonWriteMap []) = some [] := by decide
+
 end DmlcModel.Props.C17
